@@ -50,6 +50,7 @@ import (
 	"iter"
 	"regexp/syntax"
 	"strings"
+	"unicode/utf8"
 	"unsafe"
 
 	"github.com/coregx/coregex/meta"
@@ -66,6 +67,17 @@ func stringToBytes(s string) []byte {
 	}
 	// G103: Safe - read-only view of immutable string data (like Rust's as_bytes)
 	return unsafe.Slice(unsafe.StringData(s), len(s)) //nolint:gosec
+}
+
+// nextSearchPos returns the position at which match iteration resumes after an
+// empty match at pos: one whole code point further (one byte for ill-formed
+// UTF-8 or at end of input), exactly as stdlib regexp advances.
+func nextSearchPos(b []byte, pos int) int {
+	if pos >= len(b) || b[pos] < utf8.RuneSelf {
+		return pos + 1
+	}
+	_, w := utf8.DecodeRune(b[pos:])
+	return pos + w
 }
 
 // Regex represents a compiled regular expression.
@@ -804,7 +816,7 @@ func (r *Regex) ReplaceAllLiteral(src, repl []byte) []byte {
 		// This matches Go stdlib behavior (see FindAllIndex for details).
 		//nolint:gocritic // badCond: intentional - checking empty match at lastMatchEnd
 		if start == end && start == lastMatchEnd {
-			pos++
+			pos = nextSearchPos(src, pos)
 			if pos > len(src) {
 				break
 			}
@@ -827,7 +839,7 @@ func (r *Regex) ReplaceAllLiteral(src, repl []byte) []byte {
 
 		switch {
 		case start == end:
-			pos = end + 1
+			pos = nextSearchPos(src, end)
 		case end > pos:
 			pos = end
 		default:
@@ -875,7 +887,7 @@ func (r *Regex) ReplaceAllLiteralString(src, repl string) string {
 
 		//nolint:gocritic // badCond: intentional - checking empty match at lastMatchEnd
 		if start == end && start == lastMatchEnd {
-			pos++
+			pos = nextSearchPos(b, pos)
 			if pos > len(src) {
 				break
 			}
@@ -897,7 +909,7 @@ func (r *Regex) ReplaceAllLiteralString(src, repl string) string {
 
 		switch {
 		case start == end:
-			pos = end + 1
+			pos = nextSearchPos(b, end)
 		case end > pos:
 			pos = end
 		default:
@@ -1064,7 +1076,7 @@ func (r *Regex) ReplaceAll(src, repl []byte) []byte {
 		// This matches Go's stdlib behavior for preventing duplicate empty matches.
 		//nolint:gocritic // badCond: intentional - checking empty match at lastNonEmptyMatchEnd
 		if absStart == absEnd && absStart == lastNonEmptyMatchEnd {
-			pos++
+			pos = nextSearchPos(src, pos)
 			if pos > len(src) {
 				break
 			}
@@ -1088,7 +1100,7 @@ func (r *Regex) ReplaceAll(src, repl []byte) []byte {
 		switch {
 		case absStart == absEnd:
 			// Empty match: advance by 1 to avoid infinite loop
-			pos = absEnd + 1
+			pos = nextSearchPos(src, absEnd)
 		case absEnd > pos:
 			pos = absEnd
 		default:
@@ -1148,7 +1160,7 @@ func (r *Regex) ReplaceAllFunc(src []byte, repl func([]byte) []byte) []byte {
 
 		//nolint:gocritic // badCond: intentional - checking empty match at lastMatchEnd
 		if start == end && start == lastMatchEnd {
-			pos++
+			pos = nextSearchPos(src, pos)
 			if pos > len(src) {
 				break
 			}
@@ -1170,7 +1182,7 @@ func (r *Regex) ReplaceAllFunc(src []byte, repl func([]byte) []byte) []byte {
 
 		switch {
 		case start == end:
-			pos = end + 1
+			pos = nextSearchPos(src, end)
 		case end > pos:
 			pos = end
 		default:
@@ -1222,7 +1234,7 @@ func (r *Regex) ReplaceAllStringFunc(src string, repl func(string) string) strin
 
 		//nolint:gocritic // badCond: intentional - checking empty match at lastMatchEnd
 		if start == end && start == lastMatchEnd {
-			pos++
+			pos = nextSearchPos(b, pos)
 			if pos > len(src) {
 				break
 			}
@@ -1244,7 +1256,7 @@ func (r *Regex) ReplaceAllStringFunc(src string, repl func(string) string) strin
 
 		switch {
 		case start == end:
-			pos = end + 1
+			pos = nextSearchPos(b, end)
 		case end > pos:
 			pos = end
 		default:
@@ -1495,7 +1507,7 @@ func (r *Regex) AllIndex(b []byte) iter.Seq[[2]int] {
 			// This matches Go stdlib behavior.
 			//nolint:gocritic // badCond: intentional - checking empty match at lastMatchEnd
 			if start == end && start == lastMatchEnd {
-				pos++
+				pos = nextSearchPos(b, pos)
 				if pos > len(b) {
 					return
 				}
@@ -1506,11 +1518,9 @@ func (r *Regex) AllIndex(b []byte) iter.Seq[[2]int] {
 			}
 			if start != end {
 				lastMatchEnd = end
-			}
-			if end == pos {
-				pos++
-			} else {
 				pos = end
+			} else {
+				pos = nextSearchPos(b, end)
 			}
 		}
 	}
